@@ -291,6 +291,8 @@ func ruleBackground304SelectsEntry(c *Ctx, rule string) {
 	}
 	// functions that compare a stored validator (ETag / Last-Modified of a header) with another non-constant string
 	compares := map[*ssa.Function]bool{}
+	cmpETag := map[*ssa.Function]bool{} // both validators have to be compared: an entry may have only one of them
+	cmpLM := map[*ssa.Function]bool{}
 	transforms := map[*ssa.Function]bool{}
 	var tree []*ssa.Function
 	for _, bg := range bgs {
@@ -346,13 +348,24 @@ func ruleBackground304SelectsEntry(c *Ctx, rule string) {
 				return
 			}
 			if raw(bo.X, 0) && raw(bo.Y, 0) {
-				if c.An.dependsOnCall(bo.X, stored) || c.An.dependsOnCall(bo.Y, stored) {
-					compares[f] = true
+				for _, side := range []ssa.Value{bo.X, bo.Y} {
+					if c.An.dependsOnCall(side, func(cc *ssa.Call) bool { return isHeaderGetOf(cc, "Etag") }) {
+						cmpETag[f] = true
+					}
+					if c.An.dependsOnCall(side, func(cc *ssa.Call) bool { return isHeaderGetOf(cc, "Last-Modified") }) {
+						cmpLM[f] = true
+					}
 				}
+				_ = stored
 			} else {
 				transforms[f] = true // a validator is compared after it went through another call
 			}
 		})
+	}
+	for f := range cmpETag {
+		if cmpLM[f] {
+			compares[f] = true
+		}
 	}
 	for f := range transforms {
 		delete(compares, f)
